@@ -57,7 +57,7 @@ fn main() {
                     extra = format!(",\"tests\":{},\"distinct\":{}", tests, distinct);
                 }
                 "crossing" => {
-                    let (tests, distinct) = drivers::eof::crossing(&mut tr, seed, get("shard", 0) as usize, get("nshards", 1) as usize);
+                    let (tests, distinct) = drivers::eof::crossing(&mut tr, seed, get("shard", 0) as usize, get("nshards", 1) as usize, get("vbyte", 0) != 0);
                     extra = format!(",\"tests\":{},\"distinct\":{}", tests, distinct);
                 }
                 "eof" => {
